@@ -245,9 +245,18 @@ def run(ctx):
         fi = mdl.func('path.%s.length' % cname)
         _check_length_info_cache(ctx, fi, keyparams, kinds, cname)
     _check_arc_cache(ctx, mdl.func('path.Arc.length'))
-    ensurers, writers = _ensurers(ctx, mdl, PathC)
+    ensurers, writers, not_builders = _ensurers(ctx, mdl, PathC)
     if not ensurers:
-        raise AnchorMissing('no method of Path rebuilds the length table from the invalidated state')
+        if not writers:
+            raise AnchorMissing('no method of Path stores a length table')
+        # the table is stored somewhere, but nothing rebuilds it once it has been invalidated: every reader is stale after a mutation
+        for name, why in sorted(not_builders.items()):
+            if why:
+                ctx.record('R16.4', 'path.Path.' + name, 'rebuilds the table of an invalidated path', False,
+                           detail='called on a path whose table was invalidated (_length = None) it leaves %s: the stale fractions keep being used' % why,
+                           where=where(PathC.methods[name]))
+        if not any(not_builders.values()):
+            raise AnchorMissing('no method of Path rebuilds the length table from the invalidated state')
     _path_cache_tolerances(ctx, mdl, PathC, ensurers, kinds)
 
     # ------------------------------------------------------------------ R16.9 every memo on a mutable segment is keyed
@@ -892,6 +901,7 @@ def _ensurers(ctx, mdl, PathC):
                 reach.add(name)
                 changed = True
     found = {}
+    failed = {}
     for name in sorted(reach):
         fi = PathC.methods[name]
         a = fi.node.args
@@ -910,6 +920,7 @@ def _ensurers(ctx, mdl, PathC):
         except (Undecidable, PyRaise, AnchorMissing):
             continue
         ok = bool(paths)
+        why = ''
         entered = set()
         tot = Rat.sym('LEN0') + Rat.sym('LEN1') + Rat.sym('LEN2')
         for pth in paths:
@@ -926,10 +937,14 @@ def _ensurers(ctx, mdl, PathC):
                 good = False
             if not good:
                 ok = False
+                why = '_length = %s, _lengths = %s' % (short(ln, 30) if ln is not None else None,
+                                                     [short(x, 20) for x in fr] if isinstance(fr, list) else fr)
                 break
         if ok:
             found[name] = entered
-    return found, writers
+        else:
+            failed[name] = why
+    return found, writers, failed
 
 
 def _path_cache_tolerances(ctx, mdl, PathC, ensurers, kinds):
